@@ -126,6 +126,14 @@ static int run_session(xmp_context a, xmp_context b, const char *path, int rate,
 				ops[nops++].size = 0;
 				continue;
 			}
+			if (loop > 0 && vrng_chance(10)) {
+				/* rewind: xmp_set_position(0) followed by the documented NULL reset, also
+				 * after a loop-limited run has reported the end; playback must start over
+				 * with the loop counter at zero */
+				ops[nops].kind = 9;
+				ops[nops++].size = 0;
+				continue;
+			}
 			if (vrng_chance(12)) {
 				/* position control between buffer calls: 3 restart, 4 set_position,
 				 * 5 next, 6 prev, 7 seek_time, 8 set_row */
@@ -174,6 +182,11 @@ static int run_session(xmp_context a, xmp_context b, const char *path, int rate,
 		for (i = 0; i < nops; i++) {
 			if (ops[i].kind == 1) {
 				xmp_play_buffer(b, NULL, 0, 0);
+				if (ctx->p.loop_count != 0 || ctx->p.buffer_data.consumed != 0 || ctx->p.buffer_data.in_size != 0) {
+					fprintf(o, "oracle_fail op %d: the NULL reset left loop_count=%d consumed=%d in_size=%d\n", i,
+						ctx->p.loop_count, ctx->p.buffer_data.consumed, ctx->p.buffer_data.in_size);
+					fails++;
+				}
 				fprintf(o, "reset\n");
 				cursize = off = 0;	/* carry-over dropped */
 				continue;
@@ -190,12 +203,27 @@ static int run_session(xmp_context a, xmp_context b, const char *path, int rate,
 				 * still be delivered completely */
 				struct xmp_module_info mi;
 				int arg = ops[i].size, ra = 0, rb = 0;
-				if (stopped_at >= 0 || a_ended || ended || nframes != nextf || nextf == 0) {
+				if (stopped_at >= 0 || a_ended || (ended && ops[i].kind != 9) || nframes != nextf || nextf == 0) {
 					fprintf(o, "ctl skipped\n");
 					continue;
 				}
 				xmp_get_module_info(a, &mi);
 				switch (ops[i].kind) {
+				case 9:
+					arg = 0;
+					ra = xmp_set_position(a, 0);
+					rb = xmp_set_position(b, 0);
+					xmp_play_buffer(a, NULL, 0, 0);
+					xmp_play_buffer(b, NULL, 0, 0);
+					if (ctx->p.loop_count != 0 || ctx->p.buffer_data.consumed != 0 || ctx->p.buffer_data.in_size != 0) {
+						fprintf(o, "oracle_fail op %d: the NULL reset left loop_count=%d consumed=%d in_size=%d\n", i,
+							ctx->p.loop_count, ctx->p.buffer_data.consumed, ctx->p.buffer_data.in_size);
+						fails++;
+					}
+					cursize = off = 0;
+					ended = 0;
+					fprintf(o, "reset\n");
+					break;
 				case 3:
 					xmp_restart_module(a);
 					xmp_restart_module(b);
